@@ -122,6 +122,13 @@ def predicate(op, il, mres, tag):
                 want = "%02x" % int(outs[max(arr)].split(":")[1]) if outs[max(arr)].startswith("ok") else None
                 if res.split()[1] != want:
                     return ("Relic.Props.C15.success_iff_some_attempt_succeeded", "ok %s" % want, "value is not that of the successful attempt")
+        # the caller never gave up (its own deadline lies far beyond the token's per-attempt timeout): a context error of the
+        # operation can then only come from the per-attempt timeout, which must not end the operation while attempts remain
+        if o["cancel"][0] == "never" and res.startswith("err ctx") and a < eff and all(
+                (j < len(outs) and not PERMANENT.match(outs[j])) for j in arr):
+            return ("Relic.Props.C15.success_iff_some_attempt_succeeded", mres.split(" #")[0],
+                    "the caller did not cancel and attempts remained (%d of %d made, all transient) but the operation ended with %s: "
+                    "a hung attempt was not bounded by the token's timeout" % (a, eff, res))
         # permanent outcome => no later attempt, class intact
         for j in arr:
             if j < len(outs) and PERMANENT.match(outs[j]) and a > j + 1 and not (o["cancel"][0] == "during" and int(o["cancel"][1]) == j):
